@@ -6,7 +6,6 @@ import (
 	"fmt"
 	"strings"
 
-	"github.com/relab/gorums"
 	"github.com/relab/gorums/cmd/protoc-gen-gorums/dev"
 
 	"verif/mc"
@@ -195,10 +194,6 @@ func xtalkScenario(p xParams) func() {
 			if !c.Returned {
 				fail("C05/call-stuck", classOf(c.Kind), "%s: call t%d (%s) has not returned although every node answered (hist %s)", name, c.Tok, c.Kind, hist)
 			}
-		}
-		// message ids: one per call
-		if ids := gorums.VerifMsgIDs(w.Mgr.RawManager); int(ids) != len(all) {
-			fail("C05/message-ids", "count", "%s: %d calls consumed %d message ids", name, len(all), ids)
 		}
 	}
 }
